@@ -23,6 +23,7 @@ static std::string cli_sanitize(const std::string& candidate_in) {
 #include CLI_SANITIZE_SNIPPET
     return sanitize_filename(candidate_in);
 }
+namespace ephemeralnet {      // the lifted Node block may call project helpers by their names inside this namespace
 struct FakeMeta {   // the only operations the lifted block uses: operator[] and (in the harness) find
     std::vector<std::pair<std::string, std::string>> kv;
     std::string& operator[](const std::string& k) { for (auto& e : kv) if (e.first == k) return e.second; kv.emplace_back(k, std::string()); return kv.back().second; }
@@ -35,6 +36,16 @@ static std::optional<std::string> node_sanitize(std::optional<std::string> origi
     const std::string* v = manifest.metadata.find("filename");
     if (!v) return std::nullopt;
     return *v;
+}
+}  // namespace ephemeralnet
+using ephemeralnet::node_sanitize;
+// POSIX model of path::extension(): from the last '.' of the filename, unless the filename is "." / ".." or its only dot is the first character
+extern "C" void h_path_extension(std::filesystem::path* out, const std::filesystem::path* self) {
+    const std::string& s = self->native();
+    const auto slash = s.rfind('/');
+    const std::string f = slash == std::string::npos ? s : s.substr(slash + 1);
+    const auto dot = f.rfind('.');
+    new (out) std::filesystem::path((dot == std::string::npos || dot == 0 || f == "..") ? std::string() : f.substr(dot));
 }
 static bool bad_char(unsigned char c) { return c < 0x20 || c == 0x7f || c == '/' || c == '\\' || c == ':' || c == '*' || c == '?' || c == '"' || c == '<' || c == '>' || c == '|'; }
 static void check_name(const std::string& r, bool strict_chars, const char* who) {
